@@ -8,6 +8,7 @@ pub mod lua;
 pub mod registry;
 
 pub mod c02_fuse;
+pub mod c02_prec;
 pub mod c08_scalar;
 pub mod c08_steps;
 pub mod c_scalar;
